@@ -304,6 +304,13 @@ textbook(Quantity q, const Geo& g, const std::vector<int>& bins, bool additive, 
   // largest numerator of each viewgram: counts in (0, 1e-6*max] are treated as 0 by the library ("we think num was really 0"):
   // such bins are outside the regular region
   std::map<int, double> vgmax;
+  // The magnitudes allow for an absolute uncertainty of the matrix elements proportional to the largest element: the projector works
+  // with rows obtained through symmetries, the explicit rows are computed directly (build_case accepts differences up to 1e-6*pmax).
+  double pmax = 0;
+  for (int bi : bins)
+    for (auto& e : g.bins[bi].row)
+      pmax = std::max(pmax, double(std::fabs(e.second)));
+  const double dp = pmax / 16;
   for (int bi : bins)
     {
       const BinRec& b = g.bins[bi];
@@ -321,7 +328,7 @@ textbook(Quantity q, const Geo& g, const std::vector<int>& bins, bool additive, 
       if (q == Q_SENS)
         {
           for (auto& e : b.row)
-            t.v[e.first] += e.second * n, t.m[e.first] += std::fabs(e.second * n);
+            t.v[e.first] += e.second * n, t.m[e.first] += (std::fabs(e.second) + dp) * std::fabs(n);
           continue;
         }
       // "wherever ybar_b > 0": bins with y>0 and (numerically) vanishing mean are outside the regular region
@@ -349,13 +356,13 @@ textbook(Quantity q, const Geo& g, const std::vector<int>& bins, bool additive, 
           const double r = y > 0 ? y / ybar : 0.;
           const double w = q == Q_GRAD ? r - n : r;
           for (auto& e : b.row)
-            t.v[e.first] += e.second * w, t.m[e.first] += std::fabs(e.second) * (std::fabs(r) + (q == Q_GRAD ? n : 0.));
+            t.v[e.first] += e.second * w, t.m[e.first] += (std::fabs(e.second) + dp) * (std::fabs(r) + (q == Q_GRAD ? n : 0.));
         }
       else if (q == Q_HESS)
         {
           const double w = y > 0 ? -y * dot(b, x) / (ybar * ybar) : 0.;
           for (auto& e : b.row)
-            t.v[e.first] += e.second * w, t.m[e.first] += std::fabs(e.second * w);
+            t.v[e.first] += e.second * w, t.m[e.first] += (std::fabs(e.second) + dp) * std::fabs(w);
         }
     }
   return t;
@@ -376,7 +383,7 @@ struct Out
   void fail(const std::string& text)
   {
     ++fails;
-    if (fails <= 400)
+    if (fails <= 60)
       std::fprintf(orc, "ORACLE-FAIL %s\n", text.c_str());
   }
   void candidate(const std::string& key, const std::string& text)
@@ -542,13 +549,14 @@ build_case(Case& k, vh::Rng& rng)
       fill_rows(k.gs, k.image, *k.ix);
     }
   const int nvox = k.ix->size();
-  // images: positive, with a few exact zeros in mode 2
+  // images: positive; in mode 2 one half of every plane (y index >= 1) is exactly zero, so that whole rows have a vanishing mean
   k.lam.resize(nvox), k.x.resize(nvox);
   for (int i = 0; i < nvox; ++i)
     {
       k.lam[i] = static_cast<float>(0.25 + 2.5 * rng.unit());
       k.x[i] = static_cast<float>(0.1 + 1.5 * rng.unit());
-      if (c.datamode == 2 && rng.range(0, 3) == 0)
+      const int yidx = (i / k.ix->nx) % k.ix->ny + k.ix->y0;
+      if (c.datamode == 2 && yidx >= 1)
         k.lam[i] = 0.F;
     }
   k.norm = make_norm(k, rng);
@@ -557,7 +565,17 @@ build_case(Case& k, vh::Rng& rng)
   std::vector<float> truth(nvox);
   for (int i = 0; i < nvox; ++i)
     truth[i] = static_cast<float>(k.lam[i] * (0.5 + rng.unit()) * (k.g.pdi->is_tof_data() ? 3. : 1.));
-  const int zero_view = rng.range(0, c.N / 2 - 1);
+  // mode 2: the view with most bins whose mean vanishes although their row is not empty gets segment-0 data that are zero everywhere
+  int zero_view = 0;
+  {
+    std::map<int, int> cnt;
+    for (auto& b : k.g.bins)
+      if (b.seg == 0 && !b.row.empty() && dot(b, k.lam) == 0)
+        cnt[b.view]++;
+    for (auto& kv : cnt)
+      if (kv.second > cnt[zero_view])
+        zero_view = kv.first;
+  }
   for (std::size_t i = 0; i < k.g.bins.size(); ++i)
     {
       BinRec& b = k.g.bins[i];
@@ -570,9 +588,9 @@ build_case(Case& k, vh::Rng& rng)
       if (c.datamode == 2)
         {
           if (b.view == zero_view && b.seg == 0)
-            b.y = 0.F; // a viewgram that is zero everywhere (small_value = 0)
-          else if (rng.range(0, 15) == 0)
-            b.y = static_cast<float>(1 + rng.range(0, 3)); // counts where the mean may vanish: singular bins
+            b.y = 0.F; // a viewgram that is zero everywhere (small_value = 0), some of its bins with a vanishing mean (0/0)
+          else if (dot(b, k.lam) + b.a == 0 && rng.coin())
+            b.y = static_cast<float>(1 + rng.range(0, 3)); // counts where the mean vanishes: singular bins, quotient capped at 10^4
         }
       if (c.datamode == 3 && rng.range(0, 5) == 0)
         b.y = static_cast<float>(b.y * (rng.coin() ? 4.e-7 : 3.e-6) + (rng.coin() ? 2.e-7 : 5.e-6)); // around max*SMALL_NUM
@@ -627,6 +645,19 @@ bins_of(const Geo& g, const std::vector<int>& vgids, bool drop_endplanes)
       if (!(drop_endplanes && g.bins[bi].endplane))
         bins.push_back(bi);
   return bins;
+}
+
+// every bin replaced by the bin with the same segment, view, axial and tangential position at timing position 0
+static std::vector<int>
+at_tof0(const Geo& g, const std::vector<int>& bins)
+{
+  std::vector<int> r;
+  for (int bi : bins)
+    {
+      const BinRec& b = g.bins[bi];
+      r.push_back(g.index.at({ b.seg, b.view, b.ax, b.tang, 0 }));
+    }
+  return r;
 }
 
 static std::string
@@ -713,6 +744,23 @@ run_case(Out& o, Case& k, vh::Rng& rng, int case_id, bool thorough, std::map<std
     if (std::abs(gs.bins[i].seg) <= k.maxseg_eff && !(c.zero && gs.bins[i].endplane))
       all_sens_bins.push_back(static_cast<int>(i));
 
+  {
+    // malformed use: requests before set_up and a segment range larger than the data are refused
+    Holder obj(0);
+    configure(*obj, k, 1);
+    shared_ptr<TargetT> tmp(k.image->get_empty_copy());
+    const bool ok1 = guarded([&] { obj->compute_sub_gradient(*tmp, *lam_im, 0); });
+    const bool ok2 = guarded([&] { obj->compute_objective_function(*lam_im, 0); });
+    obj->set_max_segment_num_to_process(k.g.pdi->get_max_segment_num() + 1);
+    Succeeded su = Succeeded::yes;
+    const bool ok3 = guarded([&] { su = obj->set_up(k.image); }) && su == Succeeded::yes;
+    o.checks += 3;
+    if (ok1 || ok2)
+      o.fail("request before set_up accepted " + c.str());
+    if (ok3)
+      o.fail("max_segment_num_to_process larger than the data accepted by set_up " + c.str());
+    ++hist["malformed-use"];
+  }
   for (int n = 1; n <= views; ++n)
     {
       if (!thorough && n > 4 && views % n != 0)
@@ -757,6 +805,8 @@ run_case(Out& o, Case& k, vh::Rng& rng, int case_id, bool thorough, std::map<std
       std::map<int, int> vg_count;
       const float c0 = rng.coin() ? 0.F : static_cast<float>(rng.range(1, 8)) * 0.25F;
       bool all_regular = true;
+      // distributable.cxx:214: the ones created for zero_seg0_end_planes without normalisation are at timing position 0
+      const bool sens_defect_cfg = k.g.pdi->is_tof_data() && k.same_proj && c.zero && c.normkind == 0;
 
       for (int s = 0; s < n; ++s)
         {
@@ -841,15 +891,30 @@ run_case(Out& o, Case& k, vh::Rng& rng, int case_id, bool thorough, std::map<std
                   }
                 else
                   ++hist["oracle-gradient-irregular"];
+                bool sens_defect = false;
                 if (c.use_subset_sens)
                   {
                     int bad = cmp_vec(sensv, ts.v, ts.m, ORACLE_REL);
                     if (bad >= 0)
-                      o.fail("subset sensitivity differs from P^T n at voxel " + std::to_string(bad) + ": impl=" + vh::hex(sensv[bad]) + " textbook="
-                             + vh::hex(ts.v[bad]) + " " + ctx);
+                      {
+                        Textbook ts0 = textbook(Q_SENS, gs, at_tof0(gs, tb_sbins), c.additive, k.lam, k.x, nvox);
+                        if (sens_defect_cfg && cmp_vec(sensv, ts0.v, ts0.m, ORACLE_REL) < 0)
+                          {
+                            sens_defect = true;
+                            o.candidate("sensitivity:tof-zero-end-planes-trivial-norm-at-timing-pos-0",
+                                        "TOF data with TOF sensitivities, zero_seg0_end_planes=true and trivial normalisation: the multiplicative viewgrams "
+                                        "made by get_viewgrams (distributable.cxx:214, get_empty_related_viewgrams without timing_pos) are at timing position 0 "
+                                        "and are what the sensitivity back-projects: subset sensitivity = (number of TOF bins) x back projection of TOF bin 0, "
+                                        "not P^T n, and gradient_plus_sensitivity - gradient != sensitivity; first seen at voxel "
+                                            + std::to_string(bad) + " impl=" + vh::hex(sensv[bad]) + " textbook=" + vh::hex(ts.v[bad]) + " " + ctx);
+                          }
+                        else
+                          o.fail("subset sensitivity differs from P^T n at voxel " + std::to_string(bad) + ": impl=" + vh::hex(sensv[bad]) + " textbook="
+                                 + vh::hex(ts.v[bad]) + " " + ctx);
+                      }
                   }
                 // "gradient plus sensitivity" exceeds the gradient by exactly the sensitivity (same projector; subset sensitivities)
-                if (k.same_proj && c.use_subset_sens)
+                if (k.same_proj && c.use_subset_sens && !sens_defect)
                   {
                     ++hist["oracle-gps-minus-grad"];
                     std::vector<float> diff(nvox);
@@ -858,8 +923,8 @@ run_case(Out& o, Case& k, vh::Rng& rng, int case_id, bool thorough, std::map<std
                       diff[i] = gpsv[i] - gradv[i], mag[i] = tg.m[i] + ts.m[i] + std::fabs(gpsv[i]) + std::fabs(gradv[i]);
                     int bad = cmp_vec(diff, ts.v, mag, ORACLE_REL);
                     if (bad >= 0)
-                      o.fail("gradient_plus_sensitivity - gradient != subset sensitivity at voxel " + std::to_string(bad) + ": "
-                             + vh::hex(diff[bad]) + " vs " + vh::hex(sensv[bad]) + " " + ctx);
+                      o.fail("gradient_plus_sensitivity - gradient != P^T n at voxel " + std::to_string(bad) + ": "
+                             + vh::hex(diff[bad]) + " vs " + vh::hex(ts.v[bad]) + " " + ctx);
                     std::vector<double> sd(sensv.begin(), sensv.end());
                     bad = cmp_vec(diff, sd, mag, ORACLE_REL);
                     if (bad >= 0)
@@ -941,6 +1006,39 @@ run_case(Out& o, Case& k, vh::Rng& rng, int case_id, bool thorough, std::map<std
             o.fail("approximate Hessian: exception " + ctx);
         }
 
+      // ---- the full-data functions of the API against the sum of the subset results
+      {
+        std::string ctx = c.str() + " n=" + std::to_string(n);
+        o.checks += 2;
+        double full_value = 0;
+        shared_ptr<TargetT> full_grad(k.image->get_empty_copy());
+        full_grad->fill(5.F);
+        if (!guarded([&] {
+              full_value = obj->compute_objective_function(*lam_im);
+              obj->compute_gradient(*full_grad, *lam_im);
+            }))
+          o.fail("full-data value/gradient: exception " + ctx);
+        else
+          {
+            if (!(std::fabs(full_value - sum_value) <= 1e-9 * (std::fabs(sum_value) + 1)))
+              o.fail("compute_objective_function(image) != sum over subsets: " + vh::hex(full_value) + " vs " + vh::hex(sum_value) + " " + ctx);
+            std::vector<float> fg = to_vec(*full_grad);
+            int bad = cmp_vec(fg, sum_grad, sum_mag_grad, 1e-5);
+            if (bad >= 0)
+              o.fail("compute_gradient != sum over subsets of compute_sub_gradient at voxel " + std::to_string(bad) + " " + ctx);
+          }
+        // subset numbers outside 0..n-1 are refused (GeneralisedObjectiveFunction.cxx:136, :232)
+        for (int s : { -1, n, n + 3, 0 })
+          {
+            shared_ptr<TargetT> tmp(k.image->get_empty_copy());
+            const bool ok1 = guarded([&] { obj->compute_sub_gradient(*tmp, *lam_im, s); });
+            const bool ok2 = guarded([&] { obj->compute_objective_function(*lam_im, s); });
+            o.line("range " + std::to_string(n) + " " + std::to_string(s), std::string(ok1 ? "ok" : "err") + " " + (ok2 ? "ok" : "err"));
+            ++o.checks;
+            if (ok1 != (s >= 0 && s < n) || ok2 != (s >= 0 && s < n))
+              o.fail("subset number " + std::to_string(s) + " of " + std::to_string(n) + (ok1 ? " accepted" : " refused") + " " + ctx);
+          }
+      }
       // ---- each quantity summed over all subsets equals its full-data counterpart (textbook on ALL bins, no subset scheme involved)
       {
         std::string ctx = c.str() + " n=" + std::to_string(n);
@@ -976,15 +1074,24 @@ run_case(Out& o, Case& k, vh::Rng& rng, int case_id, bool thorough, std::map<std
               }
           }
         {
+          Textbook ts0 = textbook(Q_SENS, gs, at_tof0(gs, all_sens_bins), c.additive, k.lam, k.x, nvox);
           std::vector<float> ss(sum_sens.begin(), sum_sens.end());
           int bad = cmp_vec(ss, ts.v, ts.m, 2 * ORACLE_REL);
-          if (bad >= 0)
+          if (bad >= 0 && !(sens_defect_cfg && cmp_vec(ss, ts0.v, ts0.m, 2 * ORACLE_REL) < 0))
             o.fail("sum over subsets of the subset sensitivities != full sensitivity P^T n at voxel " + std::to_string(bad) + ": " + vh::hex(ss[bad])
                    + " vs " + vh::hex(ts.v[bad]) + " " + ctx);
           std::vector<float> tot = to_vec(obj->get_sensitivity());
           bad = cmp_vec(tot, ts.v, ts.m, 2 * ORACLE_REL);
           if (bad >= 0)
-            o.fail("get_sensitivity() != P^T n at voxel " + std::to_string(bad) + " " + ctx);
+            {
+              if (sens_defect_cfg && cmp_vec(tot, ts0.v, ts0.m, 2 * ORACLE_REL) < 0)
+                o.candidate("sensitivity:tof-zero-end-planes-trivial-norm-at-timing-pos-0",
+                            "TOF data with TOF sensitivities, zero_seg0_end_planes=true and trivial normalisation: get_sensitivity() = (number of TOF "
+                            "bins) x back projection of TOF bin 0 (distributable.cxx:214, get_empty_related_viewgrams without timing_pos), not P^T n; voxel "
+                                + std::to_string(bad) + " impl=" + vh::hex(tot[bad]) + " textbook=" + vh::hex(ts.v[bad]) + " " + ctx);
+              else
+                o.fail("get_sensitivity() != P^T n at voxel " + std::to_string(bad) + " " + ctx);
+            }
         }
       }
     }
@@ -1077,7 +1184,7 @@ run_penalised(Out& o, Case& k, vh::Rng& rng, std::map<std::string, long>& hist)
               prior->accumulate_Hessian_times_input(*ph_out, *lam_im, *ha);
             }
           const std::vector<double> q = dvec(*ha), pin = dvec(*ph), pout = dvec(*ph_out), got = dvec(*hb);
-          // model line: the code as it stands hands its *output* to the prior (GeneralisedObjectiveFunction.cxx:296, :401)
+          // model line: the code as it stands hands its *output* to the prior (GeneralisedObjectiveFunction.cxx:295, :397)
           std::string op = std::string(approx ? "penah " : "penh ") + std::to_string(n) + " " + std::to_string(q.size());
           for (double v : q)
             op += " " + vh::hex(v);
@@ -1297,6 +1404,17 @@ main(int argc, char** argv)
       c.use_subset_sens = rng.range(0, 3) != 0;
       c.use_tofsens = tof && rng.coin();
       c.datamode = ci % 4;
+      if (c.datamode == 2)
+        c.additive = false; // vanishing means need the additive term off
+      // configurations every run must contain (the classes of input named in known_findings.txt among them)
+      if (ci == 1)
+        c.use_tofsens = true, c.zero = true, c.normkind = 0; // TOF sensitivities + cleared end planes + trivial normalisation
+      if (ci == 4)
+        c.use_tofsens = false, c.normkind = 1; // TOF data, non-TOF sensitivity projector, normalisation from (non-TOF) projection data
+      if (ci == 3)
+        c.zero = true;
+      if (ci == 0)
+        c.zero = false, c.additive = true;
       c.voxel_factor = static_cast<float>(0.75 + 0.5 * rng.unit());
       bool ok = false;
       try
